@@ -39,6 +39,10 @@ def traditional_clause(cl, rng, n, replay):
     try:
         for j in range(n):
             h, f, A = gen_object(rng)
+            if j % 4 == 3:
+                # the frequency vector is written and read back as it is, whatever its order (centre frequencies given high to low are legal)
+                f, A = f[::-1].copy(), A[:, ::-1].copy()
+                h = hvsrpy.HvsrTraditional(f, A)
             h.meta["processing_method"] = "traditional"
             hist = apply_history(rng, h, f)
             if rng.random() < 0.35:
@@ -159,8 +163,10 @@ def diffuse_clause(cl, rng, n, replay):
             m = int(rng.integers(10, 60))
             f = np.geomspace(0.1, 30, m)
             a = 1 + 3 * np.exp(-(np.log(f / rng.uniform(0.5, 8)) / 0.3) ** 2) + 0.1 * np.abs(rng.normal(0, 1, m))
+            if j % 3 == 2:
+                f, a = f[::-1].copy(), a[::-1].copy()          # high-to-low frequency vectors are legal and are stored as they are
             h = hvsrpy.HvsrDiffuseField(f, a, meta={"processing_method": "diffuse_field"})
-            r = (None, None) if j % 2 else (float(f[2]), float(f[-3]))
+            r = (None, None) if j % 2 else (float(min(f[2], f[-3])), float(max(f[2], f[-3])))
             h.update_peaks_bounded(search_range_in_hz=r)
             fn = os.path.join(d, f"d{j}.csv")
             hvsrpy.write_hvsr_object_to_file(hvsr=h, fname=fn)
